@@ -302,7 +302,7 @@ Qed.
 
 Theorem dev_step_ok : forall d e, dev_ok d -> dev_ok (fst (dev_step d e)).
 Proof.
-  intros d e Hd. destruct e as [m er idx|m|receiver counter c|to e ts idx|to e ts idx| |receiver nonce c|new|secs|m er idx new]; cbn [dev_step].
+  intros d e Hd. destruct e as [m er idx|m|receiver counter c|to e ts idx|to e ts idx| |receiver nonce c|new|secs|m er idx ck nonce|m er idx new]; cbn [dev_step].
   - (* EInit *)
     now apply init_step_ok.
   - (* EResp *)
@@ -352,6 +352,9 @@ Proof.
   - (* EAge *)
     cbn [fst]. unfold dev_ok, hist in *. cbn [d_static d_peers d_olds]. rewrite Forall_forall in *.
     intros q Hq. apply in_map_iff in Hq. destruct Hq as (p & <- & Hin). exact (Hd p Hin).
+  - (* EInitLoad *)
+    destruct (negb (check_mac1 (d_static d) (init_body m) (i_mac1 m))); [exact Hd|].
+    destruct (teqb (i_mac2 m) (mac ck (TPair (init_body m) (i_mac1 m)))); [now apply init_step_ok|exact Hd].
   - (* EInitKey *)
     destruct (negb (check_mac1 (d_static d) (init_body m) (i_mac1 m))); [cbn [fst]; now apply set_private_key_ok|].
     destruct (consume_init (d_static d) (hs_list d) false m) as [[pid h1]|] eqn:Ec; [|cbn [fst]; now apply set_private_key_ok].
@@ -501,7 +504,7 @@ Proof. unfold set_private_key. destruct (set_key_noop d new); [split; reflexivit
 Theorem dev_step_view : forall d e k, NoDup (ids d) ->
   view (fst (dev_step d e)) k = view d k /\ ids (fst (dev_step d e)) = ids d.
 Proof.
-  intros d e k Hn. destruct e as [m er idx|m|receiver counter c|to e ts idx|to e ts idx| |receiver nonce c|new|secs|m er idx new]; cbn [dev_step].
+  intros d e k Hn. destruct e as [m er idx|m|receiver counter c|to e ts idx|to e ts idx| |receiver nonce c|new|secs|m er idx ck nonce|m er idx new]; cbn [dev_step].
   - (* EInit *)
     now apply init_step_view.
   - (* EResp *)
@@ -556,6 +559,9 @@ Proof.
     + induction (d_peers d) as [|a r IH]; cbn [map get_peer]; [reflexivity|].
       cbn [age_peer p_id]. destruct (Nat.eqb (p_id a) k); [reflexivity|]. apply IH.
     + rewrite map_map. reflexivity.
+  - (* EInitLoad *)
+    destruct (negb (check_mac1 (d_static d) (init_body m) (i_mac1 m))); [split; reflexivity|].
+    destruct (teqb (i_mac2 m) (mac ck (TPair (init_body m) (i_mac1 m)))); [now apply init_step_view|split; reflexivity].
   - (* EInitKey *)
     destruct (negb (check_mac1 (d_static d) (init_body m) (i_mac1 m))); [cbn [fst]; apply set_private_key_view|].
     destruct (consume_init (d_static d) (hs_list d) false m) as [[pid h1]|] eqn:Ec; [|cbn [fst]; apply set_private_key_view].
@@ -688,3 +694,24 @@ Lemma rekey_dev_no_open_handshake d new p : In p (d_peers (rekey_dev d new)) ->
 Proof.
   unfold rekey_dev. cbn [d_peers]. intros H. apply in_map_iff in H. destruct H as (q & <- & _). split; reflexivity.
 Qed.
+
+(* Under load the device answers an initiation without a valid MAC2 (and with a valid MAC1) by a
+   cookie reply that the SENDER can open: sealed under Hash("cookie--" || device key) with the
+   MAC1 of the sender's own message as associated data, addressed to the message's sender index;
+   nothing else happens.  Retrying the same initiation with MAC2 under that cookie is then
+   processed as without load. *)
+Theorem cookie_reply_opens_at_initiator : forall d m er idx ck nonce,
+  check_mac1 (d_static d) (init_body m) (i_mac1 m) = true ->
+  i_mac2 m <> mac ck (TPair (init_body m) (i_mac1 m)) ->
+  exists c, dev_step d (EInitLoad m er idx ck nonce) = (d, [OCookieReply (i_sender m) nonce c]) /\
+            aead_open (cookie_key (TPub (d_static d))) nonce c (i_mac1 m) = Some ck.
+Proof.
+  intros d m er idx ck nonce H1 H2. cbn [dev_step]. rewrite H1. cbn [negb].
+  rewrite (teqb_neq _ _ H2). eexists. split; [reflexivity|]. apply aead_open_seal.
+Qed.
+
+Theorem loaded_retry_with_cookie_as_unloaded : forall d m er idx ck nonce,
+  check_mac1 (d_static d) (init_body m) (i_mac1 m) = true ->
+  i_mac2 m = mac ck (TPair (init_body m) (i_mac1 m)) ->
+  dev_step d (EInitLoad m er idx ck nonce) = init_step d m er idx.
+Proof. intros d m er idx ck nonce H1 H2. cbn [dev_step]. rewrite H1, H2, teqb_refl. reflexivity. Qed.
